@@ -136,16 +136,20 @@ impl<W: Write> ProtocolWriter<W> for DefaultProtocolWriter<W> {
         if self.ok {
             #[cfg(feature = "Debug_Serializer")]
             debug!("String {}", value);
-            let mut len = value.len();
+            let len = value.len();
             if len < (1usize << 4) {
                 self.write_type_and_value(FSM_PROTOCOL_TYPE_STRING_LENGTH_4BIT, len as u64, 4);
-            } else {
+            } else if len < (1usize << 12) {
                 self.write_type_and_value(FSM_PROTOCOL_TYPE_STRING_LENGTH_12BIT, len as u64, 12);
-                len &= 0x0FFFusize;
+            } else {
+                // The format has no encoding for longer strings. Fail instead of writing a corrupt image.
+                error!("Error writing: string of {} bytes exceeds the maximum of 4095", len);
+                self.ok = false;
+                return;
             }
             if self.ok {
                 // "write" may accept only a part of the buffer, "write_all" doesn't.
-                let r = self.writer.write_all(value[0..len].as_bytes());
+                let r = self.writer.write_all(value.as_bytes());
                 self.eval_result(r);
             }
         }
